@@ -94,7 +94,7 @@ func verifUntil(cond func() bool) {
 // C18, the REAL processor loop (supervisor.New, processor, processSchedule, processDied, processGC, processKill, Run,
 // Signal) driven by the harness: the scan ticker fires when the harness says so; a root service, optionally with one child
 // service; every instance of a service behaves in one of six ways (return nil / error / panic / healthy until cancelled /
-// done / healthy, wrapped context error). Two scan ticks, then the supervisor's context is cancelled.
+// done / healthy, wrapped context error). Two or three scan ticks, then the supervisor's context is cancelled.
 //   - never two instances of the same service inside the service function at once;
 //   - an instance that died (returned without being done, returned an error, panicked) is followed by a new instance after
 //     the next scan while the context is live, once its whole subtree has stopped;
@@ -105,7 +105,11 @@ func VerifC18_Loop() {
 	ctx, cancel := context.WithCancel(context.Background())
 	supLive := true
 	withChild := zzverif.Len("withChild", 0, 1) == 1
+	ticks := zzverif.Len("ticks", 2, 3)
 	root := &verifSvc{name: "root", exits: []int{zzverif.Len("root.exit", 0, 1, 2, 3, 4, 5), zzverif.Len("root.exit", 3, 0, 1, 4)}}
+	if ticks == 3 {
+		root.exits = append(root.exits, zzverif.Len("root.exit", 3, 2))
+	}
 	child := &verifSvc{name: "a"}
 	if withChild {
 		child.exits = []int{zzverif.Len("child.exit", 3, 1, 2, 4, 5, 6), zzverif.Len("child.exit", 3, 1)}
@@ -126,7 +130,7 @@ func VerifC18_Loop() {
 
 	released := false
 	died := func(how int) bool { return how == verifReturnNil || how == verifReturnErr || how == verifPanic }
-	for tick := 0; tick < 2; tick++ {
+	for tick := 0; tick < ticks; tick++ {
 		rs, cs := root.starts, child.starts
 		rLast, cLast := root.exits[rs-1], verifHealthyBlock
 		if withChild && cs >= 1 && cs-1 < len(child.exits) {
